@@ -134,9 +134,11 @@ Definition py_aggr (g : aggr) (filt : option expr) (table : list env) : aval :=
   | GAgg f distinct e => py_aggr_vals f distinct (map (fun en => ref_eval en e) kept)
   end.
 
-(* what the caller gets: the converter of the result type decodes the value - the type of the argument for sum / min / max
-   (Monad.aggregate: result_type = expr_type), int for count, float for avg (kept as the exact quotient) *)
-Definition rty (f : afn) (t : vty) : vty := match f with FCount => TInt | _ => t end.
+(* what the caller gets: the converter of the result type decodes the value - the type of the argument for min / max and for sum
+   (Monad.aggregate: result_type = expr_type; int for the sum of a boolean since repo commit ebd2f10), int for count, float for
+   avg (kept as the exact quotient) *)
+Definition rty (f : afn) (t : vty) : vty :=
+  match f with FCount => TInt | FSum => match t with TBool => TInt | _ => t end | _ => t end.
 Definition deca (f : afn) (t : vty) (v : qv) : aval :=
   match f with
   | FAvg => match v with FracV n c => AFrac n c | _ => AVal PNone end
@@ -148,13 +150,11 @@ Definition deca_g (g : aggr) (v : qv) : aval :=
   | _ => AVal (dec (TV TInt) v)
   end.
 
-(* known bad: sum of a boolean expression - the sum is decoded by the bool converter (3 becomes True); on PostgreSQL there is
-   no sum / avg of a boolean at all *)
+(* known bad, per dialect: on PostgreSQL there is no sum / avg of a boolean *)
 Definition is_boolty (e : expr) : bool := match ty_of e with Some (TV TBool) => true | _ => false end.
 Definition aggr_safe (d : dname) (g : aggr) : bool :=
   match g with
-  | GAgg FSum _ e => negb (is_boolty e)
-  | GAgg FAvg _ e => negb (pg d && is_boolty e)
+  | GAgg (FSum | FAvg) _ e => negb (pg d && is_boolty e)
   | _ => true
   end.
 
